@@ -205,6 +205,8 @@ def judge_revision(session, name, sources, disk_modules, only=None):
         for m in list(sources) + list(disk_modules):
             s.load(m)
     except Errors.Error as e:
+        if name.startswith('real:'):
+            return [], stats   # a real module tranp itself rejects (fixtures written to contain errors) has no table to export
         return [(['load-failed', type(e).__name__], f'{name}: {type(e).__name__}: {str(e)[:200]}', {'set': name, 'sources': sources, 'disk_modules': disk_modules})], stats
     db = s.db
     ser = s.get(IReflectionSerializer)
